@@ -1351,42 +1351,4 @@ Proof.
   intros v H. unfold unwrap. apply (proj1 cunwrap_kind). constructor. exact H.
 Qed.
 
-(* ------------------------------------------------------------------ __setitem__ with a slice *)
-
-Notation setitem_slice := (setitem_slice B zero).
-Notation fa_setitem := (fa_setitem B zero).
-
-(* whenever the stop bound is not an explicit 0 the sugar is the flat slice assignment *)
-Lemma setitem_partial : forall (v : bvec) (start stop : option nat) (val : chunk),
-  wf v -> wfc val -> stop <> Some 0 ->
-  match fa_setitem (flat v) start stop (cflat val) with
-  | None => setitem_slice v start stop val = None
-  | Some l' => exists v', setitem_slice v start stop val = Some v' /\ wf v' /\ flat v' = l'
-  end.
-Proof.
-  intros v start stop val Hv Hval Hstop.
-  unfold setitem_slice, ByteVecModel.setitem_slice, fa_setitem, ByteVecSpec.fa_setitem.
-  assert (H1 : py_or start 0 = bound start 0) by (destruct start as [[|n]|]; reflexivity).
-  assert (H2 : py_or stop (blen v) = bound stop (length (flat v))).
-  { rewrite (flat_length v Hv). destruct stop as [[|n]|]; [congruence | reflexivity | reflexivity]. }
-  rewrite H1, H2. apply set_slice_correct; assumption.
-Qed.
-
 End Proofs.
-
-(* an explicit stop of 0 is taken for "to the end": v[2:0] = [8; 9] on [1; 2; 3; 4] is
-   accepted and writes [2, 4) where the flat array rejects the write *)
-Lemma setitem_witness :
-  let v : bvec nat := run_ops 0 [OAppend (wrap false [1; 2; 3; 4])] in
-  let val : chunk nat := wrap false [8; 9] in
-  wf v /\ wfc val /\
-  fa_setitem nat 0 (flat v) (Some 2) (Some 0) (cflat val) = None /\
-  exists v', setitem_slice nat 0 v (Some 2) (Some 0) val = Some v' /\
-             flat v' = [1; 2; 8; 9] /\ flat v' <> flat v.
-Proof.
-  cbv zeta. split; [|split; [|split]].
-  - apply history_correct. repeat constructor.
-  - constructor. cbn. lia.
-  - vm_compute. reflexivity.
-  - eexists. split; [vm_compute; reflexivity|]. split; [reflexivity|]. vm_compute. discriminate.
-Qed.
